@@ -5,7 +5,6 @@ import (
 	"runtime"
 	"testing"
 	"time"
-
 )
 
 // FuzzC14 is an exploratory native fuzz target (not a registered check: native fuzzing can be
